@@ -1,6 +1,7 @@
 import MpVerif.C04.Model
 import MpVerif.C04.Trace
 import MpVerif.C04.Arms
+import MpVerif.C04.Builder
 /-! Line driver for C04.  One op per line; prints one canonical line per op (`bad-op` if not understood).
 
     graph <nnodes> <size_0> ... <size_{n-1}>     start a new graph (resets entries, bounds, node contents)
@@ -11,8 +12,9 @@ import MpVerif.C04.Arms
     wf <sv> <dv> <n>                             -> `wf <inBounds> <wfVars>`
     call <pre|post> <kind> <clampnode|-> <nin> (<node> <len> <v>*)* <nout> <node>*
                                                  -> `ok <node>: v v v | <node>: ...` or `raise`
-         node contents persist between calls exactly as in `session` (each call = `runFrom prev`)
+         node contents persist between calls (each call = `runFromReg prev`: only the registered nodes are cleaned)
     trace <pre|post> <kind> <node> <idx> <nloaded> <node>*   -> symbolic origin of a cell (see Trace.lean)
+    wf2 <ndest> <node>*          -> `wf2 <nodesRegistered> <traceWF (zero = not a loaded target node)>`
     arms on | arms report       instrumentation (Arms.lean): count the model arms taken by the following `call`s
     sources <node> <idx> <nloaded> <node>*   -> `sources ok n:i ...` (m2mSourcesRev + srcsUnwritten) | `sources none` | `sources written`
     reach <kind> <unode> <uidx> <tnode> <tidx> <nloaded> <node>*
@@ -135,7 +137,7 @@ def handle (st : DState) (toks : List String) : DState × String :=
         match nout.toNat?, nats outs with
         | some nout, some outs =>
           if outs.length ≠ nout then (st, "bad-op") else
-          let r := runFrom st.g st.prev ⟨dir, kind, inputs⟩
+          let r := runFromReg st.g st.prev ⟨dir, kind, inputs⟩
           let st := if st.countArms then { st with arms := armsOfCall st.g ⟨dir, kind, inputs⟩ st.arms } else st
           match r with
           | none => (st, "raise")            -- node contents after a raise are unspecified; next call cleans them
@@ -184,6 +186,12 @@ def handle (st : DState) (toks : List String) : DState × String :=
       let o := tracePost kind zero b t
       (st, s!"reach {if reachPost a (un, ui) t then 1 else 0} " ++ (match o with | some o => o.show | none => "none"))
     | _, _, _ => (st, "bad-op")
+  | "wf2" :: nd :: dest =>
+    match nd.toNat?, nats dest with
+    | some nd, some dest =>
+      if dest.length ≠ nd then (st, "bad-op") else
+      (st, s!"wf2 {if st.g.nodesRegistered then 1 else 0} {if traceWF (fun c => !dest.contains c.1) st.g.entries then 1 else 0}")
+    | _, _ => (st, "bad-op")
   | ["arms", "on"] => ({ st with countArms := true }, "arms on")
   | ["arms", "report"] => (st, "arms " ++ " ".intercalate (st.arms.map (fun kv => s!"{kv.1}={kv.2}")))
   | _ => (st, "bad-op")
